@@ -39,6 +39,8 @@ pub enum RuntimeErrorKind {
     /// Type mismatch error that can't be caught in semantic analysis
     TypeMismatch,
     InvalidIndex,
+    /// A hoisted function ran before the `make` of a variable it captures
+    UseBeforeDeclaration,
     ProcessUnsupported,
     ProcessDenied,
     ProcessSpawnFailed(&'static str),
@@ -57,6 +59,7 @@ impl AsStr for RuntimeErrorKind {
             RuntimeErrorKind::IndexOutOfBounds => "Index out of bounds",
             RuntimeErrorKind::TypeMismatch => "Type mismatch",
             RuntimeErrorKind::InvalidIndex => "Invalid index",
+            RuntimeErrorKind::UseBeforeDeclaration => "Variable used before declaration",
             RuntimeErrorKind::ProcessUnsupported => "Unsupported process execution",
             RuntimeErrorKind::ProcessDenied => "Process execution denied",
             RuntimeErrorKind::ProcessSpawnFailed(..) => "Process spawn failed",
@@ -427,6 +430,14 @@ impl<'a> Runtime<'a> {
                         span: err.span,
                         message: ArenaCow::Borrowed("Index value no be whole number"),
                     }],
+                    RuntimeErrorKind::UseBeforeDeclaration => vec![Label {
+                        span: err.span,
+                        message: ArenaCow::Owned(arena_format!(
+                            self.arena,
+                            "Variable `{}` never dey declared when dis code run",
+                            err.name
+                        )),
+                    }],
                     RuntimeErrorKind::ProcessUnsupported => vec![Label {
                         span: err.span,
                         message: ArenaCow::Borrowed("Dis platform no support process execution"),
@@ -473,12 +484,15 @@ impl<'a> Runtime<'a> {
                 }
                 Ok(ExecFlow::Continue)
             }
-            Stmt::AssignExisting { var, expr, .. } => {
+            Stmt::AssignExisting { var, var_span, expr, .. } => {
                 let val = self.eval_expr(expr)?;
-                if let Some(local) = self.bound_stmt_local(stmt) {
-                    self.assign_bound_local(local, val);
+                let assigned = if let Some(local) = self.bound_stmt_local(stmt) {
+                    self.assign_bound_local(local, val)
                 } else {
-                    self.assign_var(var, val);
+                    self.assign_var(var, val)
+                };
+                if !assigned {
+                    return Err(Self::use_before_declaration(*var_span, var));
                 }
                 Ok(ExecFlow::Continue)
             }
@@ -647,18 +661,19 @@ impl<'a> Runtime<'a> {
             Expr::Number(n, ..) => Ok(Value::Number(
                 n.parse::<f64>().expect("Scanner should guarantee valid number format"),
             )),
-            Expr::String { parts, .. } => Ok(self.eval_string_expr(expr, parts)),
+            Expr::String { parts, .. } => self.eval_string_expr(expr, parts),
             Expr::Bool(b, ..) => Ok(Value::Bool(*b)),
             Expr::Null(..) => Ok(Value::Null),
-            Expr::Var(v, ..) => {
+            Expr::Var(v, span) => {
                 let frame = self.frame;
-                let val = if let Some(local) = self.bound_expr_local(expr) {
+                // The checker guarantees a declaration in scope, but a function that
+                // is called before its definition can run before that `make` did.
+                if let Some(local) = self.bound_expr_local(expr) {
                     self.lookup_local(local, frame)
                 } else {
                     self.lookup_var(v, frame)
                 }
-                .expect("Semantic analysis should guarantee all variables are declared");
-                Ok(val)
+                .ok_or_else(|| Self::use_before_declaration(*span, v))
             }
             Expr::Binary { op, lhs, rhs, span } => match op {
                 BinaryOp::And => {
@@ -1376,7 +1391,7 @@ impl<'a> Runtime<'a> {
                 } else {
                     self.lookup_var_mut(name)
                 }
-                .expect("Semantic analysis guarantees variable exists");
+                .ok_or_else(|| Self::use_before_declaration(object.span(), name))?;
                 match var {
                     Value::Array(arr) => Ok(arr),
                     _ => Err(RuntimeError::new_with_extras(
@@ -1404,7 +1419,7 @@ impl<'a> Runtime<'a> {
                 } else {
                     self.lookup_var_mut(base_var)
                 }
-                .expect("Semantic analysis guarantees variable exists");
+                .ok_or_else(|| Self::use_before_declaration(base_expr.span(), base_var))?;
 
                 for (idx, index_span) in &evaluated_indices {
                     match slot {
@@ -1454,7 +1469,7 @@ impl<'a> Runtime<'a> {
                 } else {
                     self.lookup_var_mut(name)
                 }
-                .expect("Semantic analysis guarantees variable exists");
+                .ok_or_else(|| Self::use_before_declaration(object.span(), name))?;
                 match var {
                     Value::Host(host) => match host.get_mut() {
                         HostValue::ProcessCommand(command) => Ok(command),
@@ -1490,7 +1505,7 @@ impl<'a> Runtime<'a> {
                 } else {
                     self.lookup_var_mut(base_var)
                 }
-                .expect("Semantic analysis guarantees variable exists");
+                .ok_or_else(|| Self::use_before_declaration(base_expr.span(), base_var))?;
 
                 for (idx, index_span) in &evaluated_indices {
                     match slot {
@@ -1583,9 +1598,13 @@ impl<'a> Runtime<'a> {
         }
     }
 
-    fn eval_string_expr(&mut self, expr: ExprRef<'a>, parts: &StringParts<'a>) -> Value<'a> {
+    fn eval_string_expr(
+        &mut self,
+        expr: ExprRef<'a>,
+        parts: &StringParts<'a>,
+    ) -> Result<Value<'a>, RuntimeError> {
         match parts {
-            StringParts::Static(content) => Value::Str(ArenaCow::borrowed(content)),
+            StringParts::Static(content) => Ok(Value::Str(ArenaCow::borrowed(content))),
             StringParts::Interpolated(segments) => {
                 let mut result = ArenaString::with_capacity_in(segments.len(), self.frame);
                 for (segment_idx, segment) in segments.iter().enumerate() {
@@ -1601,14 +1620,18 @@ impl<'a> Runtime<'a> {
                             } else {
                                 self.lookup_var_ref(var)
                             }
-                            .expect("Semantic analysis should guarantee variable exists");
+                            .ok_or_else(|| Self::use_before_declaration(expr.span(), var))?;
                             write!(result, "{value}").unwrap();
                         }
                     }
                 }
-                Value::Str(ArenaCow::owned(result))
+                Ok(Value::Str(ArenaCow::owned(result)))
             }
         }
+    }
+
+    fn use_before_declaration(span: Span, name: &str) -> RuntimeError {
+        RuntimeError::new_with_extras(RuntimeErrorKind::UseBeforeDeclaration, span, name, "")
     }
 
     fn define_bound_local(&mut self, local: LocalId, name: &'a str, val: Value<'a>) {
@@ -1635,7 +1658,8 @@ impl<'a> Runtime<'a> {
         }
     }
 
-    fn assign_bound_local(&mut self, local: LocalId, val: Value<'a>) {
+    /// Returns false when no live declaration of the variable exists (yet).
+    fn assign_bound_local(&mut self, local: LocalId, val: Value<'a>) -> bool {
         let has_frame = self.has_frame_arena();
         let pool = &self.pool;
         let frame = self.frame;
@@ -1643,13 +1667,14 @@ impl<'a> Runtime<'a> {
         for scope in self.env.iter_mut().rev() {
             if let Some(slot) = scope.iter_mut().rev().find(|slot| slot.id == Some(local)) {
                 Self::overwrite_slot(&mut slot.value, val, has_frame, pool, frame);
-                return;
+                return true;
             }
         }
-        unreachable!("Semantic analysis guarantees variable exists");
+        false
     }
 
-    fn assign_var(&mut self, name: &'a str, val: Value<'a>) {
+    /// Returns false when no live declaration of the variable exists (yet).
+    fn assign_var(&mut self, name: &'a str, val: Value<'a>) -> bool {
         let has_frame = self.has_frame_arena();
         let pool = &self.pool;
         let frame = self.frame;
@@ -1657,10 +1682,10 @@ impl<'a> Runtime<'a> {
         for scope in self.env.iter_mut().rev() {
             if let Some(slot) = scope.iter_mut().rev().find(|slot| slot.name == name) {
                 Self::overwrite_slot(&mut slot.value, val, has_frame, pool, frame);
-                return;
+                return true;
             }
         }
-        unreachable!("Semantic analysis guarantees variable exists");
+        false
     }
 
     /// Moves a function return value across a frame reset boundary.
@@ -1749,7 +1774,7 @@ impl<'a> Runtime<'a> {
         } else {
             self.lookup_var_mut(base_var)
         }
-        .expect("Semantic analysis guarantees variable exists");
+        .ok_or_else(|| Self::use_before_declaration(base_expr.span(), base_var))?;
 
         for (i, (idx, index_span)) in evaluated_indices.iter().enumerate() {
             let is_last = i + 1 == evaluated_indices.len();
